@@ -29,7 +29,9 @@ def lemma_counts_agree():
 
 
 def lemma_permuted_models(models, priors, permuted, permuted_priors):
-    """two calls of the real compare_models (bound in the environment to the instrumented function read from the tree)"""
+    """two calls of the real compare_models (bound in the environment to the instrumented function read from the tree);
+    `reindexing()` is a ghost statement: facts about the block re-indexing between the two concatenations (sizes only)"""
+    reindexing()
     r1 = compare_models(models, priors)
     r2 = compare_models(permuted, permuted_priors)
     return (r1, r2)
